@@ -281,6 +281,7 @@ type c02SeqMon struct {
 	conn         int
 	owed         []int // numbers handed out while logged on and not yet seen on the wire
 	prevLoggedOn bool
+	prevS        int // next outbound number after the previous event (0: not yet known)
 }
 
 func (m *c02SeqMon) Key() string { return fmt.Sprint("c02:", len(m.owed)) }
@@ -335,6 +336,29 @@ func (m *c02SeqMon) Step(w *sessmc.World, e *sessmc.Event, obs []sessmc.Obs) (st
 				return "C02/R6-send-did-not-advance-by-one", fmt.Sprintf("storing number %d moved the next outbound number from %d to %d", o.Arg, o.S0, o.S1)
 			}
 		}
+	}
+	// "the store's next outbound number is one past the highest number handed out": without a reset it never
+	// moves back — not across a reconnect, a refresh or a restart on the persistent store either
+	{
+		reset := false
+		for _, o := range obs {
+			if o.K == "st" && o.Op == "Reset" {
+				reset = true
+			}
+		}
+		cur := w.S()
+		if m.prevS == 0 {
+			m.prevS = w.Cfg.InitS
+			if m.prevS == 0 {
+				m.prevS = 1
+			}
+		}
+		if !reset && cur < m.prevS {
+			prev := m.prevS
+			m.prevS = cur
+			return "C02/R7-next-outbound-number-moved-back", fmt.Sprintf("%s: the next outbound number went from %d to %d without a reset (numbers already handed out will be handed out again)", e.Name, prev, cur)
+		}
+		m.prevS = cur
 	}
 	defer func() { m.prevLoggedOn = w.VS.Snapshot().LoggedOn }()
 	lastReset := -1
